@@ -754,7 +754,7 @@ func genCase(r *Rng, wild bool) tcase {
 }
 
 func gen(r *Rng, tier string, emit func(Sx)) {
-	n := 200
+	n := 170
 	if tier == "thorough" {
 		n = 4000
 	}
@@ -779,7 +779,7 @@ func gen(r *Rng, tier string, emit func(Sx)) {
 	// stack-boundary probes: every opcode byte and every EIP-8024 immediate at exact heights
 	genProbes(r.Fork(), tier, emit)
 	// call trees exercising Amsterdam's state-gas charge / refill / hand-back at every level
-	ntree := 90
+	ntree := 60
 	if tier == "thorough" {
 		ntree = 2500
 	}
